@@ -18,6 +18,13 @@ pub fn conn_closed(co: &ConnOut) -> bool {
     co.shutdown_called.is_some() || co.dropped.is_some()
 }
 
+/// Parse the output with HEAD flags taken from the request plan (final response j answers plan
+/// item j, whether it was dispatched or answered by the expect service).
+pub fn parse_out_plan(sc: &H1Scenario, ci: usize, co: &ConnOut) -> ParsedStream {
+    let flags: Vec<bool> = plan(sc, ci).iter().map(|pi| sc.conns[ci].reqs[pi.req_idx].method == "HEAD").collect();
+    resp::parse_stream(&co.out, &flags, conn_closed(co))
+}
+
 pub fn parse_out(co: &ConnOut) -> ParsedStream {
     resp::parse_stream(&co.out, &head_flags_seen(co), conn_closed(co))
 }
@@ -114,9 +121,7 @@ pub fn check_no_smuggle(sc: &H1Scenario, out: &H1Out, vs: &mut Vec<Violation>) {
 /// Generic liveness-independent safety checks shared by all H1 profiles.
 pub fn check_common(sc: &H1Scenario, out: &H1Out, vs: &mut Vec<Violation>) {
     check_no_smuggle(sc, out, vs);
-    if out.budget_exceeded {
-        vs.push(Violation::new("H1.step-budget-exceeded", "", format!("run did not finish within {} simulator steps", sc.max_steps)));
-    }
+    // (a run that exhausts its step budget is judged by C04.terminates / C06.disconnect-bounded)
     for (ci, co) in out.conns.iter().enumerate() {
         if co.write_after_shutdown {
             vs.push(Violation::new("H1.write-after-shutdown", "", format!("conn {}: poll_write after poll_shutdown completed", ci)));
@@ -299,5 +304,356 @@ pub fn framing_name(f: &BodyFraming) -> String {
         BodyFraming::Chunked => "chunked".into(),
         BodyFraming::Length(n) => format!("cl={}", n),
         BodyFraming::ToClose => "to-close".into(),
+    }
+}
+
+// ------------------------------------------------------------------------------------------
+// C02
+
+pub struct PlanItem {
+    pub req_idx: usize,
+    /// index into `seen` / `progs` (None: answered by the expect service, never dispatched)
+    pub seen_idx: Option<usize>,
+    pub status: u16,
+}
+
+pub fn plan(sc: &H1Scenario, ci: usize) -> Vec<PlanItem> {
+    let cs = &sc.conns[ci];
+    let mut v = Vec::new();
+    let mut k = 0;
+    for (i, r) in cs.reqs.iter().enumerate() {
+        if r.malformed.is_some() {
+            break;
+        }
+        if r.expect100 {
+            if let ExpectPlan::Reject(code) = sc.cfg.expect {
+                v.push(PlanItem { req_idx: i, seen_idx: None, status: code });
+                continue;
+            }
+        }
+        v.push(PlanItem { req_idx: i, seen_idx: Some(k), status: cs.prog(k).answer.status });
+        k += 1;
+    }
+    v
+}
+
+fn body_kind_name(b: &BodySpec) -> &'static str {
+    match b {
+        BodySpec::Empty => "empty",
+        BodySpec::NoneBody => "none",
+        BodySpec::Bytes(_) => "bytes",
+        BodySpec::Sized { .. } => "sized-stream",
+        BodySpec::Stream { .. } => "stream",
+        BodySpec::Custom { claim: SizeClaim::None, .. } => "custom-none",
+        BodySpec::Custom { claim: SizeClaim::Sized(_), .. } => "custom-sized",
+        BodySpec::Custom { claim: SizeClaim::Stream, .. } => "custom-stream",
+        BodySpec::FromTask { .. } => "from-task",
+    }
+}
+
+/// Declared size of a body spec (None = stream / no declared size).
+fn declared(b: &BodySpec) -> Option<u64> {
+    match b {
+        BodySpec::Empty => Some(0),
+        BodySpec::NoneBody => None,
+        BodySpec::Bytes(n) => Some(*n as u64),
+        BodySpec::Sized { len, .. } => Some(*len),
+        BodySpec::Custom { claim: SizeClaim::Sized(n), .. } => Some(*n),
+        _ => None,
+    }
+}
+
+/// Is the body never polled by design (nothing to stream)?
+fn never_polled(b: &BodySpec) -> bool {
+    matches!(b, BodySpec::Empty | BodySpec::NoneBody | BodySpec::Bytes(_) | BodySpec::Custom { claim: SizeClaim::None, .. })
+        || declared(b) == Some(0)
+}
+
+fn status_class(s: u16) -> &'static str {
+    match s {
+        204 => "204",
+        304 => "304",
+        100..=199 => "1xx",
+        _ => "other",
+    }
+}
+
+pub fn check_c02(sc: &H1Scenario, out: &H1Out) -> Vec<Violation> {
+    let mut vs = Vec::new();
+    check_common(sc, out, &mut vs);
+    let cs = &sc.conns[0];
+    let co = &out.conns[0];
+    let pl = plan(sc, 0);
+    let p = parse_out_plan(sc, 0, co);
+    let closed = conn_closed(co);
+    let finals: Vec<&resp::ParsedResp> = p.resps.iter().filter(|r| !r.is_interim()).collect();
+    // the peer reset the connection, or closed its sending side while the server is configured
+    // to abort on that
+    let socket_faulted = co.reset_sent_at.is_some() || (!sc.cfg.half_closed && co.saw_eof_at.is_some());
+
+    // --- self-delimiting
+    if let Tail::Malformed(at, why) = &p.tail {
+        // which response precedes the garbage?
+        let prev = p.resps.last();
+        let j = finals.len();
+        let (st, kind, head) = match (prev, j.checked_sub(1).and_then(|j| pl.get(j))) {
+            (Some(r), Some(pi)) => (
+                status_class(r.status),
+                pi.seen_idx.map(|k| body_kind_name(&cs.prog(k).answer.body)).unwrap_or("expect"),
+                cs.reqs[pi.req_idx].method == "HEAD",
+            ),
+            _ => ("none", "none", false),
+        };
+        let discr = if st == "204" || st == "304" { format!("body-octets-after-{}-head", st) } else { format!("garbage-after-status={}-body={}-head={}", st, kind, head) };
+        vs.push(Violation::new(
+            "C02.self-delimiting",
+            discr,
+            format!("output is not a sequence of HTTP responses: at offset {} ({}); {} responses parsed before; bytes there: {:?}", at, why, p.resps.len(), String::from_utf8_lossy(&co.out[*at..(*at + 60).min(co.out.len())])),
+        ));
+        return vs;
+    }
+
+    // --- count-order: interim responses
+    {
+        let mut fin_idx = 0usize;
+        for r in &p.resps {
+            if r.is_interim() {
+                let ok = r.status == 100 && pl.get(fin_idx).map(|pi| cs.reqs[pi.req_idx].expect100).unwrap_or(false);
+                if !ok {
+                    vs.push(Violation::new("C02.count-order", "unexpected-interim", format!("interim response {} before final response #{} whose request did not ask for it", r.status, fin_idx)));
+                }
+            } else {
+                fin_idx += 1;
+            }
+        }
+    }
+    // --- count-order: statuses in request order, no extra response
+    for (j, r) in finals.iter().enumerate() {
+        match pl.get(j) {
+            Some(pi) => {
+                if r.status != pi.status {
+                    // a connection-level error (408/400/500/431) may replace the tail
+                    let conn_level = matches!(r.status, 400 | 408 | 431 | 500) && j + 1 == finals.len() && pi.seen_idx.map(|k| co.seen.get(k).map(|s| s.answered.is_none()).unwrap_or(true)).unwrap_or(false);
+                    if !conn_level {
+                        vs.push(Violation::new(
+                            "C02.count-order",
+                            "status-mismatch",
+                            format!("final response #{} has status {} but request #{} ({} {}) was answered with {}", j, r.status, pi.req_idx, cs.reqs[pi.req_idx].method, cs.reqs[pi.req_idx].target(), pi.status),
+                        ));
+                    }
+                }
+            }
+            None => {
+                let conn_level = matches!(r.status, 400 | 408 | 431 | 500) && j + 1 == finals.len();
+                if !conn_level {
+                    vs.push(Violation::new("C02.count-order", "extra-response", format!("final response #{} (status {}) has no request", j, r.status)));
+                }
+            }
+        }
+    }
+    // --- every answered request with a completed body has its complete response
+    let mut expected_min = 0usize;
+    for (j, pi) in pl.iter().enumerate() {
+        let k = match pi.seen_idx {
+            Some(k) => k,
+            None => {
+                // answered by the expect service: counts once it has been written
+                if finals.len() > j {
+                    expected_min += 1;
+                    if finals[j].is_last() {
+                        break;
+                    }
+                    continue;
+                }
+                break;
+            }
+        };
+        let s = match co.seen.get(k) {
+            Some(s) => s,
+            None => break,
+        };
+        if s.answered.is_none() {
+            break;
+        }
+        let a = &cs.prog(k).answer;
+        let rec = co.bodies.get(k).cloned().unwrap_or_default();
+        let total: u64 = rec.pulled.iter().map(|n| *n as u64).sum();
+        let failed = rec.errored || declared(&a.body).map(|n| rec.ended && total < n).unwrap_or(false);
+        if failed {
+            break;
+        }
+        let done = never_polled(&a.body) || rec.ended;
+        if !done {
+            break;
+        }
+        expected_min += 1;
+        if finals.get(j).map(|r| r.is_last()).unwrap_or(false) {
+            break;
+        }
+    }
+    let complete_finals = finals.iter().filter(|r| r.complete).count();
+    if complete_finals < expected_min && !socket_faulted && !out.budget_exceeded {
+        // cause class: the connection future ended with an error raised by a *later* response's
+        // body while earlier, finished responses were still in the write buffer
+        let later_body_failed = co.result.as_ref().map(|r| r.0.is_err()).unwrap_or(false)
+            && pl.iter().skip(complete_finals).any(|pi| {
+                pi.seen_idx
+                    .map(|k| {
+                        let rec = co.bodies.get(k).cloned().unwrap_or_default();
+                        let total: u64 = rec.pulled.iter().map(|n| *n as u64).sum();
+                        rec.errored || declared(&cs.prog(k).answer.body).map(|n| rec.ended && total < n).unwrap_or(false)
+                    })
+                    .unwrap_or(false)
+            });
+        vs.push(Violation::new(
+            "C02.count-order",
+            if later_body_failed { "missing-response:buffered-responses-dropped-by-later-body-failure" } else { "missing-response" },
+            format!("{} handlers answered and finished their bodies but only {} complete final responses were written (connection closed: {}, task done: {}, result: {:?})", expected_min, complete_finals, closed, co.task_done, co.result.as_ref().map(|r| &r.0)),
+        ));
+    }
+
+    // --- body-faithful and short-or-failed-body-terminates
+    for (j, r) in finals.iter().enumerate() {
+        let pi = match pl.get(j) {
+            Some(pi) => pi,
+            None => continue,
+        };
+        let k = match pi.seen_idx {
+            Some(k) => k,
+            None => continue,
+        };
+        if co.seen.get(k).map(|s| s.answered.is_none()).unwrap_or(true) || r.status != pi.status {
+            continue;
+        }
+        let a = &cs.prog(k).answer;
+        let rec = co.bodies.get(k).cloned().unwrap_or_default();
+        let total: usize = rec.pulled.iter().sum();
+        let decl = declared(&a.body);
+        let short = decl.map(|n| rec.ended && (total as u64) < n).unwrap_or(false);
+        let failed = rec.errored || short;
+        let kind = body_kind_name(&a.body);
+        if r.framing != BodyFraming::NoBody {
+            let mut want = resp_bytes(k, 0, total);
+            if let Some(n) = decl {
+                want.truncate(n as usize);
+            }
+            if matches!(a.body, BodySpec::NoneBody | BodySpec::Custom { claim: SizeClaim::None, .. }) {
+                want.clear();
+            }
+            if r.complete {
+                if r.body != want {
+                    let empties = rec.pulled.iter().any(|n| *n == 0);
+                    vs.push(Violation::new(
+                        "C02.body-faithful",
+                        format!("{}-{}{}", kind, framing_name_coarse(&r.framing), if empties { "-with-empty-chunk" } else { "" }),
+                        format!("response #{}: client decodes {} bytes, the body yielded {:?} (declared {:?}); first difference at {}", j, r.body.len(), rec.pulled, decl, r.body.iter().zip(want.iter()).position(|(a, b)| a != b).unwrap_or(r.body.len().min(want.len()))),
+                    ));
+                } else if failed && r.framing != BodyFraming::ToClose && !(rec.errored && decl.map(|n| total as u64 >= n).unwrap_or(false)) {
+                    // (an error raised after every declared octet was produced cannot be signalled any more)
+                    vs.push(Violation::new(
+                        "C02.short-or-failed-body-terminates",
+                        format!("complete-looking-{}-{}", kind, if rec.errored { "error" } else { "short" }),
+                        format!("response #{}: body {} but the client sees a complete message of {} bytes", j, if rec.errored { "failed" } else { "ended short" }, r.body.len()),
+                    ));
+                }
+            } else if !want.starts_with(&r.body) && r.framing != BodyFraming::Chunked {
+                vs.push(Violation::new("C02.body-faithful", format!("{}-partial-not-prefix", kind), format!("response #{}: truncated body is not a prefix of what the body yielded", j)));
+            }
+        }
+        if failed && r.framing != BodyFraming::NoBody {
+            if !closed && !out.budget_exceeded {
+                vs.push(Violation::new(
+                    "C02.short-or-failed-body-terminates",
+                    format!("not-terminated-{}-{}", kind, if rec.errored { "error" } else { "short" }),
+                    format!("response #{}: body {} but the connection is still open at the end of the run", j, if rec.errored { "failed" } else { "ended short" }),
+                ));
+            }
+            if finals.len() > j + 1 {
+                vs.push(Violation::new(
+                    "C02.short-or-failed-body-terminates",
+                    format!("response-after-failed-body-{}", kind),
+                    format!("response #{} had a failed/short body yet {} more final responses follow", j, finals.len() - j - 1),
+                ));
+            }
+        }
+    }
+
+    // --- isolation (metamorphic reference: the same request+handler alone on a fresh connection)
+    let layout = cs.layout();
+    for (j, r) in finals.iter().enumerate() {
+        let pi = match pl.get(j) {
+            Some(pi) => pi,
+            None => continue,
+        };
+        if r.status != pi.status {
+            continue;
+        }
+        let prog = match pi.seen_idx {
+            Some(k) => cs.prog(k),
+            None => Prog::benign(),
+        };
+        let solo = solo_scenario(sc, pi.req_idx, &prog);
+        let so = run_h1(&solo, crate::rng::Tape::from_fixed(vec![], 0, true), &RunOpts { narrative: false });
+        let sp = parse_out_plan(&solo, 0, &so.conns[0]);
+        let sfin: Vec<&resp::ParsedResp> = sp.resps.iter().filter(|x| !x.is_interim()).collect();
+        let s0 = match sfin.first() {
+            Some(s) if s.status == r.status => *s,
+            _ => continue,
+        };
+        let later = layout.get(pi.req_idx + 1).map(|l| pi.seen_idx.and_then(|k| co.seen.get(k)).map(|s| s.delivered_at_answer >= l.1).unwrap_or(false)).unwrap_or(false);
+        let next_desc = cs.reqs.get(pi.req_idx + 1).map(|n| format!("{} HTTP/1.{} {:?}", n.method, n.minor, n.conn_opt)).unwrap_or_else(|| "-".into());
+        let mut diff = |field: &str, got: String, want: String| {
+            vs.push(Violation::new(
+                "C02.isolation",
+                format!("{}:{}-instead-of-{}:next-request-delivered={}", field, got, want, later),
+                format!("response #{} ({} {} HTTP/1.{}, status {}): {} is {} but the same request+handler alone on a fresh connection gets {}; next pipelined request: {}", j, cs.reqs[pi.req_idx].method, cs.reqs[pi.req_idx].target(), cs.reqs[pi.req_idx].minor, r.status, field, got, want, next_desc),
+            ));
+        };
+        if r.minor != s0.minor {
+            diff("version", format!("1.{}", r.minor), format!("1.{}", s0.minor));
+        }
+        let fk = |f: &BodyFraming| framing_name_coarse(f);
+        // a body that failed/ended short is cut: compare declared framing only
+        if fk(&r.framing) != fk(&s0.framing) {
+            diff("framing", fk(&r.framing).to_string(), fk(&s0.framing).to_string());
+        } else if let (BodyFraming::Length(a), BodyFraming::Length(b)) = (&r.framing, &s0.framing) {
+            if a != b {
+                diff("content-length", "different".into(), "declared".into());
+            }
+        }
+        // body presence on the wire (HEAD suppression): a complete response with a declared length
+        // must carry exactly that many octets unless it is HEAD/204/304 — covered by the parser's
+        // framing; what remains is the comparison of the header fields themselves
+        let hv = |x: &resp::ParsedResp, n: &str| {
+            let mut v: Vec<String> = x.header_all(n).iter().map(|s| s.to_ascii_lowercase()).collect();
+            v.sort();
+            v.join(",")
+        };
+        if hv(r, "transfer-encoding") != hv(s0, "transfer-encoding") {
+            diff("transfer-encoding-header", hv(r, "transfer-encoding"), hv(s0, "transfer-encoding"));
+        }
+        if hv(r, "content-length").is_empty() != hv(s0, "content-length").is_empty() {
+            diff("content-length-header", if hv(r, "content-length").is_empty() { "absent".into() } else { "present".into() }, if hv(s0, "content-length").is_empty() { "absent".into() } else { "present".into() });
+        }
+        // Connection header: only when the handler consumed its own request body completely in both runs
+        let consumed = |c: &ConnOut, k: Option<usize>| match k {
+            None => false,
+            Some(k) => c.seen.get(k).map(|s| s.body_end == BodyEnd::Eof).unwrap_or(false),
+        };
+        if consumed(co, pi.seen_idx) && consumed(&so.conns[0], Some(0)) && hv(r, "connection") != hv(s0, "connection") {
+            let g = hv(r, "connection");
+            let w = hv(s0, "connection");
+            diff("connection-header", if g.is_empty() { "absent".into() } else { g }, if w.is_empty() { "absent".into() } else { w });
+        }
+    }
+    vs
+}
+
+pub fn framing_name_coarse(f: &BodyFraming) -> &'static str {
+    match f {
+        BodyFraming::NoBody => "no-body",
+        BodyFraming::Chunked => "chunked",
+        BodyFraming::Length(_) => "content-length",
+        BodyFraming::ToClose => "to-close",
     }
 }
